@@ -1011,6 +1011,15 @@ func (s *State) execCryptoSub(f []string, line string) (bool, error) {
 		if idx >= 0 {
 			return true, refuse("duplicate", "peer %s already set", f[2])
 		}
+		if len(e.Peers) > 0 {
+			// Not a rule of the device (IOS takes several peers), but of
+			// C08: entries are identified by their peer and a new entry
+			// gets a free number, so a peer is only ever set in an entry
+			// that has none; otherwise the number addresses the entry of
+			// somebody else.
+			return true, refuse("seq-occupied", "crypto map %s %d is the entry of peer %s; peer %s would be added to it",
+				s.modeName, s.modeSeq, e.Peers[0], f[2])
+		}
 		e.Peers = append(e.Peers, f[2])
 		return true, nil
 	case len(f) == 5 && f[0] == "set" && f[1] == "ip" && f[2] == "access-group" && (f[4] == "in" || f[4] == "out"):
